@@ -39,6 +39,15 @@ def check(prop, tier, seed, replay=None):
     spec = props.PROPS[prop]
     ctx = props.Ctx(prop, tier, seed)
     broken = []  # broken ties: (kind, name, detail)
+    # the obligations are the theorems PINNED for this property (coq/theorems.pin.json, committed) plus
+    # any further theorem of Properties/Cxx.v; a pinned theorem that disappears is a broken obligation
+    pins = json.load(open(os.path.join(ROOT, "coq", "theorems.pin.json"))).get(prop, [])
+    import re as _re
+    try:
+        in_file = _re.findall(r"^Theorem (\w+)", open(os.path.join(ROOT, "coq", "theories", "Properties", prop + ".v")).read(), _re.M)
+    except OSError:
+        in_file = []
+    spec.theorems = list(dict.fromkeys(list(pins) + in_file))
     obligations = list(spec.theorems)
     discharged = 0
     assumptions = {}
